@@ -302,7 +302,9 @@ def scenario(rng, reqs, kt, n_req=1, force=None, tx_dt=0):
     attempts = []
     plan = []
     others = sorted(set(r.cid for r in rqs))
+    plans = []
     for rq in rqs:
+        plans.append(len(plan))
         if rq.op == 'fire':
             attempts.append((rng.random() < 0.9, fault_events(rng, rq, kt, rng.choice(['silence', 'garbage', 'unrelated']), 'random')))
             plan.append(('fire',))
@@ -317,8 +319,14 @@ def scenario(rng, reqs, kt, n_req=1, force=None, tx_dt=0):
             if k_good is not None and a == k_good:
                 frames, info = good_answer(rng, rq, kt)
                 data = b''
+                foreign = [o for o in others if o not in rq.filt()]
                 for fr in frames:
-                    data += Q.inert_traffic(rng, rq.filt(), [o for o in others if o not in rq.filt()]) + fr
+                    data += Q.inert_traffic(rng, rq.filt(), foreign)
+                    if foreign and rng.random() < 0.5:
+                        # a late / duplicate answer to ANOTHER request of this history (not an answer-class frame for this one)
+                        oc, oi = rng.choice(foreign)
+                        data += G.frame(oc, oi, bytes(rng.getrandbits(8) for _ in range(rng.choice([0, 4, 6, 28]))))
+                    data += fr
                 evs = Q.chunk(rng, data, mode, [0, 0, 1] if delay >= 100 else [0])
                 total = sum(dt for _, dt in evs)
                 # conservatively "in time": everything, plus two idle reads for packets queued behind others, fits the period
@@ -338,7 +346,8 @@ def scenario(rng, reqs, kt, n_req=1, force=None, tx_dt=0):
     pending = fault_events(rng, rqs[0], kt, rng.choice(['silence', 'silence', 'garbage', 'truncated']), 'random') if rng.random() < 0.3 else []
     script = {'pending': pending, 'attempts': attempts, 'idle': idle, 'drain': rng.random() < 0.5, 'tx_dt': tx_dt,
               'bad_cfg': rng.choice([(), (), (('retries', 11),), (('retries', -1), ('delay', 5001)), (('delay', -1),), (('retries', 100), ('delay', 100000))])}
-    return {'retries': retries, 'delay': delay, 'script': script, 'reqs': rqs, 'plan': plan}
+    plans = [plan[a:b] for a, b in zip(plans, plans[1:] + [len(plan)])]
+    return {'retries': retries, 'delay': delay, 'script': script, 'reqs': rqs, 'plan': plan, 'plans': plans}
 
 
 def model_cmd(sc, sk):
@@ -349,7 +358,17 @@ def model_cmd(sc, sk):
 def describe(sc):
     return {'retries': sc['retries'], 'delay_ms': sc['delay'], 'idle_dt': sc['script']['idle'],
             'script': Q.script_token(sc['script'])[:3000], 'requests': [f'{rq.op}:{rq.label}' for rq in sc['reqs']],
-            'plan': [list(map(str, p)) for p in sc['plan']]}
+            'plan': [list(map(str, p)) for p in sc['plan']], 'backend': sc.get('backend', 'scripted subclass of the base class'),
+            'bauds': list(sc.get('bauds', ()))}
+
+
+def on_tty(rng, sc, limit=400):
+    """Turn a scenario into one for the real serial backend (bytes arrive one per read), if it is small enough."""
+    if Q.script_bytes(sc['script']) > limit:
+        return sc
+    b0 = rng.choice([9600, 38400, 115200, 921600])
+    b1 = rng.choice([None, None, 9600, 19200, 115200, 460800])
+    return dict(sc, script=Q.bytewise(sc['script']), backend='tty', bauds=(b0, b1))
 
 
 def run_scenario(sc, loglevel=None):
@@ -364,7 +383,8 @@ def run_scenario(sc, loglevel=None):
                 return cache[id(rq)]
             return rq.build()
         return b
-    return Q.run_impl(sc['script'], sc['retries'], sc['delay'], [(rq.op, builder(rq)) for rq in sc['reqs']], loglevel)
+    return Q.run_impl(sc['script'], sc['retries'], sc['delay'], [(rq.op, builder(rq)) for rq in sc['reqs']], loglevel,
+                      backend=sc.get('backend', 'stub'), bauds=sc.get('bauds', (115200, None)), alarm_s=sc.get('alarm_s', 30))
 
 
 # ------------------------------------------------------------------ parsing results
